@@ -239,8 +239,9 @@ def playback(h, prop):
     rpath = os.path.join(rdir, "%s.playback.rs" % h.name.replace("::", "_"))
     with SlotLock("kslot") as slot:
         cmd = kani_cmd(h, slot.target_dir, extra=["-Z", "concrete-playback", "--concrete-playback=inplace"])
-        shell = "ulimit -v %d; exec %s" % (h.mem_gb * 1024 * 1024, " ".join("'%s'" % c for c in cmd))
-        rc, out = sh(shell, cwd=scratch, timeout=h.timeout,
+        # the driver holds the whole counterexample trace in memory on top of CBMC: give the playback run more room
+        shell = "ulimit -v %d; exec %s" % (max(2 * h.mem_gb, 40) * 1024 * 1024, " ".join("'%s'" % c for c in cmd))
+        rc, out = sh(shell, cwd=scratch, timeout=2 * h.timeout,
                      log=os.path.join(LOGS, "playback_gen_%s_%s.log" % (h.crate, h.name.replace("::", "_"))))
     # find the generated tests
     tests = []
